@@ -592,7 +592,8 @@ PROPS = {
                      None, ["the budget through the binary (termination::compile with -n alone or combined with a time limit that cannot fire, sync_launch, async_launch): exactly N children started (cli stream, profile budget)"]),
     "C04": _run_prop("C04", [{"kind": "run", "name": "stop", "profile": "stop", "count": {"quick": 320, "thorough": 4000}, "salt": 4},
                              {"kind": "cli", "name": "limit", "profile": "limit", "count": {"quick": 16, "thorough": 120}, "salt": 41},
-                             {"kind": "cli", "name": "sigint", "profile": "sigint", "count": {"quick": 16, "thorough": 120}, "salt": 42}],
+                             {"kind": "cli", "name": "sigint", "profile": "sigint", "count": {"quick": 16, "thorough": 120}, "salt": 42},
+                             {"kind": "cli", "name": "target", "profile": "target", "count": {"quick": 32, "thorough": 300}, "salt": 43}],
                      ["'delivered' = taken up by the controller's select loop (the abort turn); a request sent while completions are queued may be taken up after some of them (DESIGN 3, C04)"]),
     "C05": _run_prop("C05", [{"kind": "run", "name": "mixed", "profile": "mixed", "count": {"quick": 320, "thorough": 4000}, "salt": 5},
                              {"kind": "meta", "name": "inproc", "profile": "inproc", "count": {"quick": 24, "thorough": 400}, "salt": 51}],
